@@ -1,5 +1,5 @@
 # Core of the checker: regenerate the encoding from /repo, run CBMC queries in parallel, parse verdicts.
-import hashlib, json, os, re, shutil, subprocess, sys, time, resource
+import hashlib, json, os, re, shutil, subprocess, sys, time, resource, threading
 from concurrent.futures import ThreadPoolExecutor
 
 ROOT = os.path.dirname(os.path.dirname(os.path.abspath(__file__)))
@@ -74,6 +74,8 @@ class Query:
         self.standard_checks = standard_checks
         self.c_path = None
         self.result = None
+        self.cancelled = False
+        self.proc = None
 
     def clang_cmd(self, out_ll):
         d = []
@@ -106,11 +108,12 @@ class Result:
         self.n_failed = 0
         self.vars = 0
         self.clauses = 0
+        self.hist = None  # values of the h_* recording variables in the first counterexample trace
 
     def to_json(self):
         return {'status': self.status, 'asserts': {str(k): v for k, v in self.asserts.items()}, 'secs': self.secs,
                 'rss_kb': self.rss_kb, 'note': self.note, 'n_checks': self.n_checks, 'n_failed': self.n_failed,
-                'vars': self.vars, 'clauses': self.clauses}
+                'vars': self.vars, 'clauses': self.clauses, 'hist': self.hist}
 
     @staticmethod
     def from_json(j):
@@ -120,6 +123,9 @@ class Result:
         r.secs = j['secs']; r.rss_kb = j['rss_kb']; r.note = j.get('note', '')
         r.n_checks = j.get('n_checks', 0); r.n_failed = j.get('n_failed', 0)
         r.vars = j.get('vars', 0); r.clauses = j.get('clauses', 0)
+        h = j.get('hist')
+        if h is not None:
+            r.hist = {k: ({int(i): x for i, x in v.items()} if isinstance(v, dict) else v) for k, v in h.items()}
         return r
 
 
@@ -177,6 +183,15 @@ def parse_cbmc(out, res):
             res.vars = max(res.vars, int(m.group(1))); res.clauses = max(res.clauses, int(m.group(2)))
 
 
+def kill_query(q):
+    p = getattr(q, 'proc', None)
+    if p is not None and p.poll() is None:
+        try:
+            os.killpg(os.getpgid(p.pid), 9)
+        except Exception:
+            pass
+
+
 def run_query(q, mem_gb=12):
     build_query(q)
     cmd = q.cbmc_cmd()
@@ -195,32 +210,44 @@ def run_query(q, mem_gb=12):
     t0 = time.time()
 
     def lim():
+        os.setsid()
         resource.setrlimit(resource.RLIMIT_AS, (mem_gb << 30, mem_gb << 30))
+    if q.cancelled:
+        r.status = 'undecided'; r.note = 'cancelled (not needed any more)'
+        q.result = r
+        return r
+    proc = subprocess.Popen(['/usr/bin/time', '-f', 'RSSKB %M'] + cmd, stdout=subprocess.PIPE, stderr=subprocess.PIPE, text=True,
+                            preexec_fn=lim)
+    q.proc = proc
     try:
-        p = subprocess.run(['/usr/bin/time', '-f', 'RSSKB %M'] + cmd, capture_output=True, text=True, timeout=q.timeout,
-                           preexec_fn=lim)
-        out = p.stdout
-        m = re.search(r'RSSKB (\d+)', p.stderr)
+        out, err = proc.communicate(timeout=q.timeout)
+        m = re.search(r'RSSKB (\d+)', err)
         r.rss_kb = int(m.group(1)) if m else 0
         parse_cbmc(out, r)
+        if '\nTrace for ' in out:
+            first = out.split('\nTrace for ', 2)[1]
+            r.hist = parse_history(first)
         unwind_fail = [k for k, v in r.asserts.items() if isinstance(k, str) and 'unwinding assertion' in k and v == 'FAILURE']
-        if p.returncode == 0 and 'VERIFICATION SUCCESSFUL' in out:
+        if q.cancelled:
+            r.status = 'undecided'; r.note = 'cancelled (not needed any more)'
+        elif proc.returncode == 0 and 'VERIFICATION SUCCESSFUL' in out:
             r.status = 'pass'
-        elif p.returncode == 10 and 'VERIFICATION FAILED' in out:
+        elif proc.returncode == 10 and 'VERIFICATION FAILED' in out:
             r.status = 'fail'
             if unwind_fail:
                 r.status = 'error'
                 r.note = 'unwinding bound too small: ' + ', '.join(unwind_fail[:3])
         else:
             r.status = 'error'
-            r.note = 'cbmc exit %d: %s' % (p.returncode, (out[-400:] + p.stderr[-400:]).replace('\n', ' | '))
-            if 'std::bad_alloc' in p.stderr or 'Out of memory' in p.stderr or p.returncode in (-9, 137, 134):
+            r.note = 'cbmc exit %d: %s' % (proc.returncode, (out[-400:] + err[-400:]).replace('\n', ' | '))
+            if 'std::bad_alloc' in err or 'Out of memory' in err or 'out of memory' in (out + err).lower() or proc.returncode in (-9, 137, 134, -6):
                 r.status = 'undecided'
                 r.note = 'out of memory (limit %d GB)' % mem_gb
     except subprocess.TimeoutExpired:
         r.status = 'undecided'
         r.note = 'timeout after %ds' % q.timeout
-        subprocess.run(['pkill', '-f', q.c_path], capture_output=True)
+        kill_query(q)
+        proc.communicate()
     r.secs = round(time.time() - t0, 2)
     if r.status in ('pass', 'fail'):
         json.dump(r.to_json(), open(vpath, 'w'))
@@ -228,18 +255,38 @@ def run_query(q, mem_gb=12):
     return r
 
 
-def run_all(queries, jobs=None, mem_gb=12, progress=True):
+MEM_BUDGET_GB = int(os.environ.get('VERIF_MEM_GB', '48'))
+_mem_cv = threading.Condition()
+_mem_used = [0]
+
+
+def run_all(queries, jobs=None, mem_gb=12, progress=True, on_done=None):
+    """on_done(q) may return a list of queries to cancel (pending ones are skipped, running ones killed)"""
     jobs = jobs or JOBS
     errors = []
 
     def work(q):
+        need = min(q.meta.get('mem_gb', 2), MEM_BUDGET_GB)
+        with _mem_cv:
+            while _mem_used[0] + need > MEM_BUDGET_GB:
+                _mem_cv.wait()
+            _mem_used[0] += need
         try:
-            r = run_query(q, mem_gb)
+            r = run_query(q, max(mem_gb, q.meta.get('mem_gb', 2) * 2))
         except ToolError as e:
             r = Result(); r.status = 'error'; r.note = str(e); q.result = r
+        finally:
+            with _mem_cv:
+                _mem_used[0] -= need
+                _mem_cv.notify_all()
         if progress:
             sys.stderr.write('  [%s] %-40s %6.1fs %5dMB %s%s\n' % (r.status, q.name, r.secs, r.rss_kb // 1024,
                                                                   '(cached) ' if r.cache_hit else '', r.note[:200]))
+        if on_done is not None:
+            for c in (on_done(q) or []):
+                if c.result is None:
+                    c.cancelled = True
+                    kill_query(c)
         return r
     # longest first
     order = sorted(queries, key=lambda q: -q.meta.get('weight', 1))
@@ -253,3 +300,81 @@ def cbmc_trace(q, extra_flags=()):
     cmd = q.cbmc_cmd() + ['--trace', '--stop-on-fail'] + list(extra_flags)
     p = subprocess.run(cmd, capture_output=True, text=True, timeout=max(q.timeout * 3, 600))
     return p.stdout
+
+
+def parse_history(trace_text):
+    """history recorded by k1_hist.cpp (h_* arrays) and hooks (h_draw) from a `cbmc --trace` text"""
+    vals = {}
+    for m in re.finditer(r'(?m)^\s*(?:G_)?(h_\w+?)(?:\[(\d+)l?\])?=(-?\d+)', trace_text):
+        name, idx, v = m.group(1), m.group(2), int(m.group(3))
+        if v >= 1 << 63:
+            v -= 1 << 64
+        if idx is None:
+            vals[name] = v
+        else:
+            vals.setdefault(name, {})[int(idx)] = v
+    return vals
+
+
+def history_lines(vals, ksteps):
+    lines = ['cfg %d %d' % (vals.get('h_cfg_ttl', 100), vals.get('h_cfg_tick', 5))]
+    draws = vals.get('h_draw', {})
+    g = lambda n, i: vals.get(n, {}).get(i, 0)
+    for i in range(ksteps):
+        if g('h_a', i) == 0:
+            break  # calls after the failing one are not part of the counterexample
+        lines.append('%d %d %d %d %d %d %d %d' % (g('h_op', i), g('h_k', i) & (2**64 - 1), g('h_v', i) & (2**64 - 1), g('h_a', i),
+                                                  g('h_pk', i), g('h_ttl', i), g('h_now', i), 0))
+    lines.append('draws ' + ' '.join(str(draws.get(i, 0) & (2**64 - 1)) for i in range(16)))
+    return lines
+
+
+def state_lines(vals, ncalls=1):
+    """(alpha(pre), call) of a K2 counterexample, for the state-builder mode of the replay"""
+    n = vals.get('h_pre_n', 0)
+    g = lambda name, i: vals.get(name, {}).get(i, 0)
+    lines = ['state %d %d %d %d' % (vals.get('h_last_now', 0), vals.get('h_pre_ttl', 0), vals.get('h_pre_tick', 0), n)]
+    for i in range(n):
+        lines.append('e %d %d %d %d %d' % (g('h_pre_k', i) & (2**64 - 1), g('h_pre_v', i) & (2**64 - 1), g('h_pre_d', i),
+                                           g('h_pre_cnt', i) & (2**64 - 1), g('h_pre_age', i)))
+    for c in range(ncalls):
+        lines.append('call %d %d %d %d %d %d %d' % (g('h_op', c), g('h_k', c) & (2**64 - 1), g('h_v', c) & (2**64 - 1), g('h_a', c),
+                                                    g('h_pk', c), g('h_ttl', c), g('h_now', c)))
+    lines.append('draws ' + ' '.join(str(vals.get('h_draw', {}).get(i, 0) & (2**64 - 1)) for i in range(16)))
+    return lines
+
+
+REPLAY_FLAGS = {
+    'plain': ['-O1', '-g'],
+    'san': ['-O1', '-g', '-fsanitize=address,undefined', '-fno-sanitize-recover=undefined', '-D_GLIBCXX_DEBUG'],
+}
+
+
+def build_replay(cont, n, ts='no', variant='plain', extra_defs=()):
+    """the REAL build: real headers from /repo, real libstdc++, link-time virtual clock"""
+    key = sha(source_hash(), hash_tree([os.path.join(ROOT, 'replay')]), cont, n, ts, variant, ' '.join(extra_defs))
+    d = os.path.join(BUILD, 'replay', key)
+    exe = os.path.join(d, 'replay_%s_n%d_%s_%s' % (cont, n, ts, variant))
+    if os.path.exists(exe) and not NO_CACHE:
+        return exe
+    os.makedirs(d, exist_ok=True)
+    cmd = ['g++', '-std=c++17'] + REPLAY_FLAGS[variant] + ['-DVF_REAL', '-DVF_RUNTIME_PROP', '-Dprivate=public',
+           '-DCONT_API="api_%s.hpp"' % cont, '-DHCAP=%d' % n, '-DTS=%s' % ts] + list(extra_defs) + [
+           '-I', os.path.join(ROOT, 'harness'), '-I', os.path.join(REPO, 'inc'),
+           os.path.join(ROOT, 'replay', 'replay.cpp'), '-o', exe + '.tmp', '-lpthread']
+    p = subprocess.run(cmd, capture_output=True, text=True)
+    if p.returncode != 0:
+        raise ToolError('replay build failed (%s):\n%s' % (cont, p.stderr[-3000:]))
+    os.replace(exe + '.tmp', exe)
+    return exe
+
+
+def run_replay(exe, prop, hist_path, timeout=120):
+    env = dict(os.environ)
+    env['ASAN_OPTIONS'] = 'detect_leaks=1:abort_on_error=0'
+    try:
+        p = subprocess.run([exe, str(prop), hist_path], capture_output=True, text=True, timeout=timeout, env=env)
+    except subprocess.TimeoutExpired:
+        return {'rc': -1, 'out': 'timeout', 'fails': [], 'done': False}
+    fails = [(int(m.group(1)), int(m.group(2))) for m in re.finditer(r'CLAUSE-FAIL id=(\d+) step=(\d+)', p.stdout)]
+    return {'rc': p.returncode, 'out': p.stdout[-6000:] + p.stderr[-3000:], 'fails': fails, 'done': 'REPLAY-DONE' in p.stdout}
